@@ -311,8 +311,15 @@ def r9_4(ctx):
     ctx.check("[{}]\n" in forms2, "invalid-exit-form", gt.where(), "the InvalidExitCode arm writes the actual code as `[<code>]`")
 
 
+def r9_5(ctx):
+    from . import c11
+    c11.r11_2(ctx)
+    c11.r11_3(ctx)
+
+
 def run(ctx):
     ctx.run_rule("R9.1", "Markdown fences: same `\"`\".repeat(max_backtick_size(body)+c)` value opens and closes, c>=1, measured text == emitted text; max_backtick_size >= 2, max over all lines [E-FLOW]", r9_1, floor=12)
     ctx.run_rule("R9.2", "no str::trim* is applied to a generated test body anywhere in src/generators [E-FLOW sweep]", r9_2, floor=2)
     ctx.run_rule("R9.3", "generate_testcase: matched expectations via original_string; unexpected lines via escaped_expectation(trim_newlines(line)) + ` (no-eol)` exactly on !ends_with(\\n) [E-FLOW, E-PATH]", r9_3, floor=8)
+    ctx.run_rule("R9.5", "escaped renderings never contain the decoder's introducer unescaped; ` (escaped)` exactly when the rendering differs (shared with C11 R11.2/R11.3) [E-PATH]", r9_5, floor=10)
     ctx.run_rule("R9.4", "writer/reader tables: `$ `/`> ` prefixes, exit-code line iff code != 0, `[n]` form accepted by the reader's pattern [E-TABLE]", r9_4, floor=6)
